@@ -686,6 +686,14 @@ func minOf(s []int) int {
 
 const growthSlack = 10
 
+// documentedBound: containers that vouch documents as pruned with a hysteresis are
+// only growing "with elapsed time" once they are beyond that bound (a run in which
+// few slots produce a record does not reach the first pruning within the horizon).
+// synccommitteemessenger/standard: maxSlotDataRecordsBeforeCleanUp = 100.
+var documentedBound = map[string]int{
+	"services/synccommitteemessenger/standard.Service.slotDataRecords": 101 + growthSlack,
+}
+
 // judgeGrowth applies (i): the low-water mark of every container over the last
 // quarter of the run must not exceed its low-water mark over the second quarter by
 // more than a constant (with the third quarter in between).  (Low-water marks over a window rather than single
@@ -707,7 +715,7 @@ func (r *runner) judgeGrowth() {
 		// growth with elapsed time: the low-water mark rises from quarter to quarter, by more than
 		// the slack in total.  (Rising in both steps: a container that follows the sync period, like
 		// the job table, may have its trough outside one quarter, not outside two consecutive ones.)
-		if q4 > q2+growthSlack && q3 >= q2+growthSlack/4 && q4 >= q3+growthSlack/4 {
+		if q4 > q2+growthSlack && q3 >= q2+growthSlack/4 && q4 >= q3+growthSlack/4 && q4 > documentedBound[k] {
 			r.add("growth:"+k, "container %s: low-water mark %d entries over epochs %d..%d of the run, %d over epochs %d..%d, %d over epochs %d..%d (size at the end %d): grows with elapsed time",
 				k, q2, q, 2*q, q3, 2*q, 3*q, q4, 3*q, n, s[n-1])
 		}
